@@ -64,7 +64,7 @@ def _compare_const(node):
 def extract():
     d = {"tol": None, "extra": None, "break_tol": None, "inner_test": "?", "inner_op": "?", "inner_rhs": "?",
          "break_lhs": "?", "break_op": "?", "break_test": "?", "num_iter": "?", "loop_iter": "?", "reorth_guard": "?",
-         "guards_single": False, "trim": "?", "loop_body": [], "reorth_body": [], "extra_body": [], "pre_loop": [],
+         "guards_single": False, "first_guard": "?", "trim": "?", "loop_body": [], "reorth_body": [], "extra_body": [], "pre_loop": [],
          "params": [], "multiple_init_vecs": "?", "mask": "?", "mask_fill": None, "mask_fill_text": "?", "evec_mask": "?",
          "eigh_cpu_below": None, "to_diag_body": [], "tridiagonal_jitter": None, "max_root_decomposition_size": None,
          "root_jitter": [], "diag_jitter": [], "root_assembly": [], "post_body": [], "slq_call": "?"}
@@ -100,6 +100,7 @@ def extract():
                 # is the write `t_mat[0, 1]` guarded by a test on num_iter?
                 if isinstance(st, ast.If) and "num_iter" in ast.unparse(st.test) and "t_mat[0, 1]" in ast.unparse(st):
                     d["guards_single"] = True
+                    d["first_guard"] = _flat(st.test)
         if loop is not None:
             d["loop_iter"] = _flat(loop.iter)
             for st in loop.body:
@@ -210,6 +211,7 @@ def render(d):
          f"def reorthGuard : String := {lean_str(d['reorth_guard'])}",
          "/-- the writes at index 1 before the loop are guarded by a test on `num_iter` -/",
          f"def guardsSingle : Bool := {'true' if d['guards_single'] else 'false'}",
+         f"def firstGuard : String := {lean_str(d['first_guard'])}",
          f"def trim : String := {lean_str(d['trim'])}",
          f"def multipleInitVecs : String := {lean_str(d['multiple_init_vecs'])}",
          f"def params : List (String × String) := [" + ", ".join(f"({lean_str(a)}, {lean_str(b)})" for a, b in d["params"]) + "]",
